@@ -139,7 +139,14 @@ func UserAgentHandle(str string) (map[string]interface{}, map[string]ast.DType) 
 }
 
 func DateFormatHandle(data interface{}, precision string, fmts string) (string, error) {
-	v := conv.ToInt64(data)
+	var v int64
+	switch data.(type) {
+	case []any, map[string]any:
+		// not a timestamp; conv would format the whole value into an error
+		// message (endless for a list or map that contains itself)
+	default:
+		v = conv.ToInt64(data)
+	}
 
 	var t time.Time
 	switch precision {
